@@ -284,7 +284,75 @@ fn c12_run_script(readings: Vec<u64>, tail: u64, rounds: u8, ops: &[JOp], class:
                     "measurements": st.measurements, "stuck": st.stuck}));
 }
 
+/// pick a rare-value target for a collection starting from pool `pool0`
+pub fn pick_target(p: &mut Prng, pool0: u64, rounds: u8) -> Target {
+    let t = match p.below(10) {
+        0 | 1 => Target::Exact(pool0),          // the word handed out before (0 for a fresh generator)
+        2 => Target::Exact(0),
+        3 => Target::Exact(u64::MAX),
+        4 | 5 => Target::Upper(0),
+        6 => Target::Lower(0),
+        7 => Target::EqualHalves,
+        8 => Target::Upper((pool0 >> 32) as u32),
+        _ => Target::Lower(pool0 as u32),
+    };
+    // two deltas of 31 free bits cannot meet 64 equations
+    match t {
+        Target::Exact(_) if rounds < 2 => if p.chance(1, 2) { Target::Upper(0) } else { Target::Lower(0) },
+        t => t,
+    }
+}
+
+/// C12 on SOLVED scripts: after a short ordinary prefix, the next collection is made
+/// to produce a rare word (equal to the previous word, 0, all ones, a zero half …)
+/// and is consumed through each call width.
+fn c12_solved_case(sub: &str, id: u64, r: &mut Report) {
+    let mut p = Prng::new(id);
+    let rounds = *p.pick(&[1u8, 2, 2, 3, 3, 5, 64]);
+    let mut ops: Vec<JOp> = (0..p.below(4)).map(|_| match p.below(6) {
+        0 | 1 => JOp::U64,
+        2 | 3 => JOp::U32,
+        4 => JOp::Fill(p.below(17) as usize),
+        _ => JOp::Stats(p.chance(1, 2)),
+    }).collect();
+    let tail = p.u64();
+    // the model tells where the prefix ends and which pool the collection starts from
+    let pre = gen_script(&mut p, 0, 2400);
+    let probe = ScriptedTimer::new(pre.clone(), tail);
+    let mut cur = probe.model_cursor();
+    let mut m = Jitter::new();
+    m.rounds = rounds;
+    let mut st = CollectStats::default();
+    for op in &ops {
+        model_apply(&mut m, op, &mut cur, &mut st);
+    }
+    if cur.pos > pre.len() {
+        r.inconclusive("solved: prefix longer than its script".into());
+        return;
+    }
+    let target = pick_target(&mut p, m.pool, rounds);
+    let start = if cur.pos == 0 { 1_000_000 + p.below(1 << 40) } else { pre[cur.pos - 1].wrapping_add(p.range(1, 5000)) };
+    let solved = match solve_collection(&mut p, m.pool, rounds, start, target) {
+        Some(s) => s,
+        None => { r.cov("solved:no_solution"); return; }
+    };
+    let mut readings = pre[..cur.pos].to_vec();
+    readings.extend(solved);
+    // consumption: a pending half (if any) is served first by u32-sized calls
+    match p.below(4) {
+        0 => ops.extend([JOp::U64, JOp::U64]),
+        1 => ops.extend([JOp::U32, JOp::U32, JOp::U32, JOp::U32]),
+        2 => ops.extend([JOp::Fill(8), JOp::Fill(4), JOp::Fill(3), JOp::Fill(12)]),
+        _ => ops.extend([JOp::U32, JOp::U32, JOp::U64, JOp::U32]),
+    }
+    r.cov(&format!("solved_target:{}", target.name()));
+    c12_run_script(readings, tail, rounds, &ops, "solved", sub, id, r);
+}
+
 fn c12_case(sub: &str, id: u64, explicit: Option<&Value>, r: &mut Report) {
+    if sub == "solved" && explicit.is_none() {
+        return c12_solved_case(sub, id, r);
+    }
     if let Some(e) = explicit {
         if let Some((readings, tail, rounds, ops)) = parse_explicit(e) {
             c12_run_script(readings, tail, rounds, &ops, "explicit", sub, id, r);
@@ -338,7 +406,11 @@ pub fn run_c12(ctx: &Ctx, only: Option<&Only>) -> Report {
         return r;
     }
     let secs = if ctx.tier_thorough { ctx.budget_s } else { 0.0 };
-    let mut total = drive(ctx, "script", 24_000, secs, |id, r| c12_case("script", id, None, r));
+    let mut total = drive(ctx, "script", 24_000, secs * 0.8, |id, r| c12_case("script", id, None, r));
+    total.merge(drive(ctx, "solved", 6_000, secs * 0.2, |id, r| c12_case("solved", id, None, r)));
+    for t in ["exact_zero", "exact_ones", "exact_value", "upper_zero", "lower_zero", "equal_halves"] {
+        total.floor(&format!("solved_target:{}", t), 50);
+    }
     total.floor("stuck_measurements", 100);
     for op in ["u32", "u64", "fill", "timer_stats", "set_rounds", "test_timer", "replace_via_clone_from", "timer_fault_recovered"] {
         total.floor(&format!("op:{}", op), 100);
@@ -724,7 +796,110 @@ fn c13_check(readings: Vec<u64>, tail: u64, class: &str, sub: &str, id: u64, r: 
                     "backward": facts.backwards_measured, "mod100": facts.count_mod, "stuck": facts.count_stuck}));
 }
 
+/// test_timer on a generator that was USED before (an output collection, or an
+/// earlier test_timer), against the same script on a fresh generator: the verdict is
+/// a function of the call's own 400 probes. The earlier activity is aimed: its last
+/// two deltas (a, b) are chosen so that b - a, a - b or b equals the delta of the first
+/// measured probe (what a stuck-test history carried over would compare with), and the
+/// test scripts sit on the thresholds, where one miscounted probe flips the verdict.
+fn c13_used_case(sub: &str, id: u64, r: &mut Report) {
+    let mut p = Prng::new(id);
+    let class = *p.pick(&[4usize, 4, 4, 13, 3, 0, 12, 8]);
+    let test = c13_gen(&mut p, class);
+    if test.len() < 1601 { return; }
+    let delta_of = |probe: usize| test[4 + 4 * probe].wrapping_sub(test[1 + 4 * probe]) as u32 as i32;
+    let (d0, d100) = (delta_of(0), delta_of(WARM));
+    let a = p.range(1000, 60_000) as i32;
+    let aim = p.below(7);
+    let mut b = match aim {
+        0 | 1 => a.wrapping_add(d100),
+        2 => a.wrapping_sub(d100),
+        3 => d100,
+        4 => a.wrapping_add(d0),
+        5 => d0,
+        _ => p.range(1000, 60_000) as i32,
+    };
+    let aimed = b > 0 && b != a;
+    if !aimed { b = a + 1 + p.below(5000) as i32; }
+    // earlier activity: one rounds=1 collection (priming delta a, accepted delta b) that
+    // ends just before the test script starts; or two of them; or a whole earlier test_timer
+    let prior_kind = p.below(4);
+    let gap = p.range(5, 5000);
+    let end = test[0].wrapping_sub(gap);
+    let t1 = end.wrapping_sub(b as u64);
+    let t0 = t1.wrapping_sub(a as u64);
+    let coll = vec![t0, t0.wrapping_add(1), t1, t1.wrapping_add(1), t1.wrapping_add(2), end, end.wrapping_add(1)];
+    let mut prior: Vec<u64> = Vec::new();
+    let mut prior_ops: Vec<&str> = Vec::new();
+    if prior_kind == 3 {
+        // an earlier (passing, jittery) test_timer first
+        let mut q = Prng::new(p.u64());
+        let first = c13_gen(&mut q, 8);
+        let shift = t0.wrapping_sub(*first.last().unwrap()).wrapping_sub(p.range(5, 500));
+        prior.extend(first.iter().map(|v| v.wrapping_add(shift)));
+        prior_ops.push("test_timer");
+    }
+    if prior_kind == 2 {
+        let back = (a as u64 + b as u64 + 100) * 2;
+        prior.extend(coll.iter().map(|v| v.wrapping_sub(back)));
+        prior_ops.push("next_u64");
+    }
+    prior.extend(coll.iter());
+    prior_ops.push(if prior_kind == 1 { "next_u32" } else { "next_u64" });
+    let n_prior = prior.len();
+    let mut full = prior;
+    full.extend(test.iter());
+    let tail = p.u64();
+    // (a) fresh generator, the test script alone
+    let fresh_timer = ScriptedTimer::new(test.clone(), tail);
+    let res_fresh = JitterRng::new_with_timer(fresh_timer.closure()).test_timer();
+    // (b) used generator
+    let timer = ScriptedTimer::new(full, tail);
+    let mut g = JitterRng::new_with_timer(timer.closure());
+    g.set_rounds(1);
+    for op in &prior_ops {
+        match *op {
+            "test_timer" => { let _ = g.test_timer(); g.set_rounds(1); }
+            "next_u32" => { let _ = g.next_u32(); }
+            _ => { let _ = g.next_u64(); }
+        }
+    }
+    if timer.calls() != n_prior {
+        // a measurement of the earlier activity was stuck (or the earlier test stopped early):
+        // the script is no longer aligned with the test; not this monitor's subject
+        r.cov("used:misaligned");
+        return;
+    }
+    let res_used = g.test_timer();
+    let consumed = timer.calls() - n_prior;
+    let script = fresh_timer.0.clone();
+    let facts = tt_facts(&|i| script.reading_at(i), PROBES);
+    r.eval();
+    let detail = |why: String| json!({
+        "script_class": TT_CLASSES[class], "earlier_activity": prior_ops, "earlier_last_deltas": [a, b], "aim": aim,
+        "first_probe_delta": d0, "first_measured_probe_delta": d100,
+        "result_on_fresh_generator": err_name(&res_fresh), "result_on_used_generator": err_name(&res_used), "why": why,
+        "facts": format!("{:?}", facts), "readings_consumed": consumed});
+    if let Err(why) = tt_judge(&res_used, &facts, false) {
+        r.violation("test_timer:on_used_generator:verdict_does_not_match_readings".into(), sub, id, detail(why));
+        return;
+    }
+    r.eval();
+    if err_name(&res_fresh) != err_name(&res_used) {
+        r.violation("test_timer:verdict_depends_on_earlier_use".into(), sub, id, detail("same 400 probes, different verdicts".into()));
+        return;
+    }
+    r.cov("used_generator");
+    if aimed { r.cov("used_generator:aimed"); }
+    r.cov(&format!("used_generator_result:{}", err_name(&res_used).split('(').next().unwrap_or("")));
+    if facts.count_stuck == 270 { r.cov("used_generator:exactly_270_stuck"); }
+    r.distinct(hkey(&[&"used", &id]));
+}
+
 fn c13_case(sub: &str, id: u64, explicit: Option<&Value>, r: &mut Report) {
+    if sub == "used" && explicit.is_none() {
+        return c13_used_case(sub, id, r);
+    }
     if let Some(e) = explicit {
         if let Some((readings, tail, _, _)) = parse_explicit(e) {
             c13_check(readings, tail, "explicit", sub, id, r);
@@ -814,7 +989,11 @@ pub fn run_c13(ctx: &Ctx, only: Option<&Only>) -> Report {
         return r;
     }
     let secs = if ctx.tier_thorough { ctx.budget_s } else { 0.0 };
-    let mut total = drive(ctx, "timer", 12_000, secs, |id, r| c13_case("timer", id, None, r));
+    let mut total = drive(ctx, "timer", 12_000, secs * 0.8, |id, r| c13_case("timer", id, None, r));
+    total.merge(drive(ctx, "used", 6_000, secs * 0.2, |id, r| c13_case("used", id, None, r)));
+    total.floor("used_generator", 1_000);
+    total.floor("used_generator:aimed", 500);
+    total.floor("used_generator:exactly_270_stuck", 50);
     run_case("zst", 0, &mut total, &|_, r: &mut Report| c13_zst_sequence(ctx, r));
     total.floor("zst_sequence_done", 1);
     total.floor("zst_result:Ok", 5);
@@ -1206,7 +1385,18 @@ fn c16_case(sub: &str, id: u64, r: &mut Report) {
     let rounds = *p.pick(&[1u8, 1, 2, 3, 3, 64, 255]);
     let n_ops = if rounds >= 64 { p.range(3, 6) } else { p.range(4, 28) } as usize;
     let class = *p.pick(&[0usize, 0, 0, 6, 9, 4]);
-    let readings = gen_script(&mut p, class, 400);
+    let mut readings = gen_script(&mut p, class, 400);
+    // one history in six starts with a collection SOLVED to give a word with a special
+    // half (zero upper half: "nothing pending" encodings that reuse the value 0)
+    if rounds < 64 && p.chance(1, 6) {
+        let t = *p.pick(&[Target::Upper(0), Target::Upper(0), Target::Lower(0), Target::EqualHalves, Target::Exact(0), Target::Upper(u32::MAX)]);
+        let t = if rounds < 2 && matches!(t, Target::Exact(_)) { Target::Upper(0) } else { t };
+        let start0 = 1_000_000 + p.below(1 << 30);
+        if let Some(s) = solve_collection(&mut p, 0, rounds, start0, t) {
+            readings = s;
+            r.cov(&format!("solved_first_word:{}", t.name()));
+        }
+    }
     let timer = ScriptedTimer::new(readings, p.u64());
     let mut cur = timer.model_cursor();
     let mk = JitterRng::new_with_timer(timer.closure());
@@ -1510,5 +1700,6 @@ pub fn run_c16(ctx: &Ctx, only: Option<&Only>) -> Report {
         total.floor(&format!("rounds:{}", rr), 10);
     }
     total.floor("instances:3", 100);
+    total.floor("solved_first_word:upper_zero", 100);
     total
 }
